@@ -45,6 +45,7 @@ def dispatch (line : String) : String :=
   | "escape" :: args => Driver.RenderD.handleEscape args
   | "pretty" :: args => Driver.PrintD.handlePretty args
   | "ignoretail" :: args => Driver.ParseWfD.handleIgnoreTail args
+  | "shellvisitdoc" :: args => Driver.ParseWfD.handleShellVisitDoc args
   | "cron" :: args => Driver.CronD.handle args
   | "sanitize" :: args => Driver.RenderD.handleSanitize args
   | "exproffsets" :: args => Driver.RenderD.handleExprOffsets args
